@@ -19,6 +19,8 @@ mod adf;
 mod config;
 mod double_labeled_graph;
 mod user;
+#[cfg(adf_obdd_verif)]
+mod verif_seam;
 
 use adf::{
     add_adf_problem, delete_adf_problem, get_adf_problem, get_adf_problems_for_user,
